@@ -260,7 +260,8 @@ func c06Verify(res *engine.Result, pre string, pmt psi.PMT, w *c06Want, deep boo
 // ---- carrier ----------------------------------------------------------------------------------
 
 var c06LeadNames = []string{"pointer_field=0", "pointer+filler", "pointer+filler", "pointer+filler", "foreign-section-first", "foreign-section-first", "other-pmt-section-first", "two-large-foreign-sections-first",
-	"foreign-section-of-maximal-length-first", "foreign-section-of-maximal-length-first", "empty-foreign-section-first", "empty-foreign-section-first"}
+	"foreign-section-of-maximal-length-first", "foreign-section-of-maximal-length-first", "empty-foreign-section-first", "empty-foreign-section-first",
+	"long-private-section-first", "long-private-section-first"}
 
 // c06Payload assembles the complete payload: lead-in (pointer_field with filler, or pointer_field 0
 // and a complete foreign section), the PMT section, trailing stuffing.
@@ -289,6 +290,12 @@ func c06Payload(lead int, sec []byte, trail int) []byte {
 	case lead == 10:
 		// a present but empty short-form section: table_id, section_length 0
 		p = append(ref.Pointer(0), 0x42, 0x30, 0x00)
+	case lead == 12:
+		// a private section longer than any PAT/PMT section may be (private sections go up to 4093): section_length 1500
+		p = append(ref.Pointer(0), ref.OtherSection(0xC0, 1491)...)
+	case lead == 13:
+		// ... and the longest one, section_length 4093
+		p = append(ref.Pointer(0), ref.OtherSection(0xFC, 4084)...)
 	default:
 		// two empty sections behind a pointer_field of 2
 		p = append(ref.Pointer(2), 0x42, 0x30, 0x00, 0x43, 0x30, 0x00)
@@ -1124,7 +1131,7 @@ func c06GenBig(r *engine.Run, emit func(c06BigCase)) {
 	}
 	// foreign sections of the largest lengths, and empty ones, in front of the table
 	for _, sl := range []int{150, 400} {
-		for _, lead := range []int{8, 9, 10, 11} {
+		for _, lead := range []int{8, 9, 10, 11, 12, 13} {
 			emit(c06BigCase{sl, 0, lead, false})
 			emit(c06BigCase{sl, 1, lead, true})
 		}
@@ -1154,7 +1161,7 @@ func c06CheckHdr(c c06HdrCase) engine.Result {
 	engine.Guard(&res, "TableHeader", func() {
 		payload := make([]byte, 0, 16)
 		for flags := 0; flags < 4; flags++ {
-			for sl := 0; sl < 1024; sl++ {
+			for sl := 0; sl < 4096; sl++ {
 				h := psi.TableHeader{TableID: uint8(c.TableID), SectionSyntaxIndicator: flags&2 != 0, PrivateIndicator: flags&1 != 0, SectionLength: uint16(sl)}
 				res.Evals++
 				back, err := psi.TableHeaderFromBytes(h.Data())
@@ -1195,7 +1202,7 @@ func c06CheckHdr(c c06HdrCase) engine.Result {
 			}
 		}
 	})
-	res.Nontrivial = 4 * 1024
+	res.Nontrivial = 4 * 4096
 	res.Outcome(c.TableID)
 	return res
 }
@@ -1319,7 +1326,7 @@ func init() {
 			},
 			&engine.Enum[c06BigCase]{
 				Name: "large-sections",
-				Rule: "case = section padded to an exact section_length in {150,180,181,184,400,1021} (thorough: 16 lengths around the one-, two- and three-packet limits up to the maximal 1021) x 2 content variants (plus a third with as many descriptor-less streams as fit: 125, 127, 128, 129 and 201 streams, and a fourth with one stream carrying 125..129, 254..258, 300 and ~496 tiny descriptors) x lead-in {pointer_field 0, pointer_field 100 with filler, foreign section first; for two lengths also a foreign section with section_length 1022 / 1023 and one / two empty sections (section_length 0) first} x last-packet style (quick: one style per variant); the last stream's ES_info_length exceeds 255; per case: accessors, done predicate on every prefix, ExtractCRC, NewPMT, ReadPMT for every first-packet size 1..184 x second packet full/3 bytes with a foreign-PID packet in every gap; non-trivial = each (case, first size, second size)",
+				Rule: "case = section padded to an exact section_length in {150,180,181,184,400,1021} (thorough: 16 lengths around the one-, two- and three-packet limits up to the maximal 1021) x 2 content variants (plus a third with as many descriptor-less streams as fit: 125, 127, 128, 129 and 201 streams, and a fourth with one stream carrying 125..129, 254..258, 300 and ~496 tiny descriptors) x lead-in {pointer_field 0, pointer_field 100 with filler, foreign section first; for two lengths also a foreign section with section_length 1022 / 1023, one / two empty sections (section_length 0), and a private section with section_length 1500 / 4093 first} x last-packet style (quick: one style per variant); the last stream's ES_info_length exceeds 255; per case: accessors, done predicate on every prefix, ExtractCRC, NewPMT, ReadPMT for every first-packet size 1..184 x second packet full/3 bytes with a foreign-PID packet in every gap; non-trivial = each (case, first size, second size)",
 				Gen:  c06GenBig, Check: witnessEnum(c06CheckBig, witnessPSI), Batch: 1,
 			},
 			&engine.Enum[c06ReuseCase]{
@@ -1397,7 +1404,7 @@ func init() {
 			},
 			&engine.Enum[c06HdrCase]{
 				Name: "table-header-codec",
-				Rule: "all 2^8 table ids (case) x 4 flag combinations x 1024 section lengths: TableHeaderFromBytes(h.Data()) == h; TableHeaderFromBytes and the five psi.go accessors on the reference encoding of h behind pointer_field 0 and 3; NewPointerField(n) for every n in 0..182; non-trivial = each header",
+				Rule: "all 2^8 table ids (case) x 4 flag combinations x all 4096 values of the 12-bit section_length: TableHeaderFromBytes(h.Data()) == h; TableHeaderFromBytes and the five psi.go accessors on the reference encoding of h behind pointer_field 0 and 3; NewPointerField(n) for every n in 0..182; non-trivial = each header",
 				Gen: func(r *engine.Run, emit func(c06HdrCase)) {
 					for t := 0; t < 256; t++ {
 						emit(c06HdrCase{t})
